@@ -563,3 +563,28 @@ package interpreter
 //@   opt index-fn 1
 //@   ensures[C05.opcodeRoll_err] (= (= err nil) (and (>= (old (len (. t dstack stk))) 1) (old (spec.top_ok t 0)) (<= 0 (spec.clamp32 (old (spec.top_num t 0)))) (< (spec.clamp32 (old (spec.top_num t 0))) (- (old (len (. t dstack stk))) 1))))
 //@   ensures[C05.opcodeRoll] (=> (= err nil) (and (= (len (. t dstack stk)) (- (old (len (. t dstack stk))) 1)) (= (at (. t dstack stk) (- (len (. t dstack stk)) 1)) (old (at (. t dstack stk) (- (- (len (. t dstack stk)) 2) (spec.clamp32 (spec.top_num t 0)))))) (forall ((k Int)) (=> (and (<= 0 k) (< k (- (- (len (. t dstack stk)) 1) (spec.clamp32 (old (spec.top_num t 0)))))) (= (at (. t dstack stk) k) (old (at (. t dstack stk) k))))) (forall ((k Int)) (=> (and (<= (- (- (len (. t dstack stk)) 1) (spec.clamp32 (old (spec.top_num t 0)))) k) (< k (- (len (. t dstack stk)) 1))) (= (at (. t dstack stk) k) (old (at (. t dstack stk) (+ k 1))))))))
+
+// ---- C06 (partial): the encoding rules that the DER / low-S / strict-encoding flags switch on ----
+//@ func scriptflag.Flag.HasFlag
+//@   pure
+//@   ensures[C06.has_flag_bit] (=> (or (= flag 64) (= flag 128) (= flag 4096)) (= result (= (mod (div s flag) 2) 1)))
+//@ func scriptflag.Flag.HasAny
+//@   bytes array
+//@   pure
+//@   ensures[C06.has_any_der] (=> (and (= (len flags) 3) (= (at flags 0) 64) (= (at flags 1) 128) (= (at flags 2) 4096)) (= result (or (= (mod (div s 64) 2) 1) (= (mod (div s 128) 2) 1) (= (mod (div s 4096) 2) 1))))
+//@   loop 0 invariant (=> (and (= (len flags) 3) (= (at flags 0) 64) (= (at flags 1) 128) (= (at flags 2) 4096)) (and (=> (>= rangeindex 0) (not (= (mod (div s 64) 2) 1))) (=> (>= rangeindex 1) (not (= (mod (div s 128) 2) 1))) (=> (>= rangeindex 2) (not (= (mod (div s 4096) 2) 1)))))
+//@ func interpreter.(*thread).hasFlag
+//@   pure
+//@   ensures[C06.thread_has_flag] (=> (or (= flag 64) (= flag 128) (= flag 4096)) (= result (spec.flag_on t flag)))
+//@ func interpreter.(*thread).hasAny
+//@   bytes array
+//@   pure
+//@   ensures[C06.thread_has_any_der] (=> (and (= (len ff) 3) (= (at ff 0) 64) (= (at ff 1) 128) (= (at ff 2) 4096)) (= result (or (spec.flag_on t 64) (spec.flag_on t 128) (spec.flag_on t 4096))))
+//@ func interpreter.(*thread).checkPubKeyEncoding
+//@   bytes array
+//@   ensures[C06.pubkey_encoding] (= (= err nil) (or (not (spec.flag_on t 4096)) (and (= (len pubKey) 33) (or (= (at pubKey 0) 2) (= (at pubKey 0) 3))) (and (= (len pubKey) 65) (= (at pubKey 0) 4))))
+//@ func interpreter.(*thread).checkSignatureEncoding
+//@   bytes array
+//@   ensures[C06.sig_encoding_off] (=> (not (or (spec.flag_on t 64) (spec.flag_on t 128) (spec.flag_on t 4096))) (= err nil))
+//@   ensures[C06.sig_encoding_der] (=> (and (or (spec.flag_on t 64) (spec.flag_on t 4096)) (not (spec.flag_on t 128))) (= (= err nil) (spec.der_ok sig)))
+//@   ensures[C06.sig_encoding_needs_der] (=> (and (= err nil) (or (spec.flag_on t 64) (spec.flag_on t 128) (spec.flag_on t 4096))) (spec.der_ok sig))
